@@ -219,15 +219,29 @@ pub fn message_eq(a: &Message, b: &Message) -> bool {
         && payload_eq(&a.payload, &b.payload)
 }
 
-/// symbolic NUL-free valid-UTF-8 string of EXACTLY N bytes (all sizes concrete for CBMC)
+/// symbolic NUL-free text of EXACTLY N bytes, all sizes concrete for CBMC. Alphabet: ASCII
+/// (1..=0x7F). Multi-byte UTF-8 content is generated by `text_exact_mb`; a loop-based validity
+/// filter over symbolic bytes (ref_utf8_prefix_len) makes every harness that uses it unwind to
+/// its bound (measured) and is therefore not used in generators.
 pub fn text_exact<const N: usize>() -> String {
+    ascii_exact::<N>()
+}
+
+/// one multi-byte UTF-8 character of exactly N bytes (N = 2, 3, 4), every code point of that
+/// length (Unicode Table 3-7 ranges), no loop
+pub fn text_exact_mb<const N: usize>() -> String {
     let b: [u8; N] = kani::any();
-    let mut i = 0;
-    while i < N {
-        kani::assume(b[i] != 0);
-        i += 1;
+    if N == 2 {
+        kani::assume(b[0] >= 0xC2 && b[0] <= 0xDF && b[1] >= 0x80 && b[1] <= 0xBF);
+    } else if N == 3 {
+        kani::assume(b[0] >= 0xE0 && b[0] <= 0xEF && b[1] >= 0x80 && b[1] <= 0xBF && b[2] >= 0x80 && b[2] <= 0xBF);
+        kani::assume(b[0] != 0xE0 || b[1] >= 0xA0);
+        kani::assume(b[0] != 0xED || b[1] <= 0x9F);
+    } else {
+        kani::assume(b[0] >= 0xF0 && b[0] <= 0xF4 && b[1] >= 0x80 && b[1] <= 0xBF && b[2] >= 0x80 && b[2] <= 0xBF && b[3] >= 0x80 && b[3] <= 0xBF);
+        kani::assume(b[0] != 0xF0 || b[1] >= 0x90);
+        kani::assume(b[0] != 0xF4 || b[1] <= 0x8F);
     }
-    kani::assume(ref_utf8_prefix_len(&b) == N);
     unsafe { String::from_utf8_unchecked(b.to_vec()) }
 }
 
@@ -240,4 +254,10 @@ pub fn ascii_exact<const N: usize>() -> String {
         i += 1;
     }
     unsafe { String::from_utf8_unchecked(b.to_vec()) }
+}
+
+/// symbolic byte vector of EXACTLY N bytes
+pub fn bytes_exact<const N: usize>() -> Vec<u8> {
+    let b: [u8; N] = kani::any();
+    b.to_vec()
 }
